@@ -309,6 +309,9 @@ def build_move(spec: dict, env: MoveEnv, path: str):
     w = env.world
     t = spec["type"]
     if t == "ref":
+        if "leaf" in spec:
+            # one elementary move of a composite entry, registered a second time on its own (the same object)
+            return World.leaves_of(env.named[spec["of"]])[spec["leaf"]]
         return env.named[spec["of"]]
     if t == "sum":
         items = [build_move(s, env, f"{path}.{i}") for i, s in enumerate(spec["items"])]
@@ -470,6 +473,14 @@ class World:
             kw["max_cycles"] = p["max_cycles"]
         kw["seed"] = _seed_value(sc)
         name = sc["driver"]
+        # moves handed to the constructor (default_displacement_move= / default_cell_move= / default_exchange_move=):
+        # the driver registers them under those names with its default criteria and default probabilities
+        self.env = MoveEnv(self)
+        for entry in sc.get("moves", []):
+            if entry.get("via") == "constructor":
+                mv = build_move(entry["move"], self.env, entry["name"])
+                self.env.named[entry["name"]] = mv
+                kw[entry["name"]] = mv
         files = sc.get("files", {})
         if self.disk is not None:
             for role in ("logfile", "trajectory", "restart_file"):
@@ -516,9 +527,17 @@ class World:
             self.gen = rngseam.install(mc)
         else:
             self.gen = None
-        self.env = MoveEnv(self)
         for i, entry in enumerate(sc["moves"]):
             mname = entry.get("name", f"m{i}")
+            if entry.get("via") == "constructor":
+                # registered by the constructor; the user may then tune the public fields of the table entry
+                st = mc.moves[mname]
+                for fld in ("probability", "interval", "minimum_count"):
+                    if fld in entry:
+                        setattr(st, fld, entry[fld])
+                if self.opts.get("tape_criteria", True):
+                    st.criteria = TapeCriteria(st.criteria, self, mname)
+                continue
             mv = build_move(entry["move"], self.env, mname)
             self.env.named[mname] = mv
             crit = None
@@ -736,6 +755,10 @@ class World:
 
             leaves = self.leaves_of(self.mc.moves[name].move)
             what = pre["what"]
+            if what in ("add", "delete") and not isinstance(self.mc.moves[name].move, ExchangeMove):
+                # exchange targets are pre-selected on a stand-alone ExchangeMove only (the documented use): a composite
+                # exchange move decides direction and candidates itself and would leave the target behind on its member
+                leaves = []
             for lf in leaves:
                 if what == "displace" and type(lf) is DisplacementMove and len(lf.unique_labels):
                     lf.to_displace_labels = int(lf.unique_labels[int(pre["pick"] * len(lf.unique_labels))])
@@ -856,13 +879,29 @@ def spec_kind(mspec: dict, sc: dict | None = None) -> str:
         if sc is not None:
             for i, e in enumerate(sc["moves"]):
                 if e.get("name", f"m{i}") == mspec["of"]:
-                    return "ref:" + spec_kind(e["move"], sc)
+                    return "ref:" + spec_kind(_leaf_spec(e["move"], mspec["leaf"]) if "leaf" in mspec else e["move"], sc)
         return "ref"
     if t in ("disp", "exch") and mspec.get("op"):
         return f"{t}:{op_kind(mspec['op'])}"
     if t == "cell":
         return f"cell:{op_kind(mspec['op']) if mspec.get('op') else 'default'}"
     return t
+
+
+def _leaf_spec(mspec: dict, index: int) -> dict:
+    """The specification of the index-th distinct elementary move of a composite specification."""
+    out = []
+
+    def walk(m):
+        if m["type"] in ("sum", "wrap"):
+            for x in m["items"]:
+                walk(x)
+        elif m["type"] == "mul":
+            walk(m["item"])  # the same object n times: one distinct leaf
+        else:
+            out.append(m)
+    walk(mspec)
+    return out[min(index, len(out) - 1)]
 
 
 def spec_cat(mspec: dict, sc: dict | None = None) -> str:
@@ -872,7 +911,7 @@ def spec_cat(mspec: dict, sc: dict | None = None) -> str:
     if t == "ref" and sc is not None:
         for i, e in enumerate(sc["moves"]):
             if e.get("name", f"m{i}") == mspec["of"]:
-                return spec_cat(e["move"], sc)
+                return spec_cat(_leaf_spec(e["move"], mspec["leaf"]) if "leaf" in mspec else e["move"], sc)
         return "ref"
     if t in ("sum", "mul", "wrap"):
         items = mspec["items"] if t in ("sum", "wrap") else [mspec["item"]]
